@@ -8,7 +8,7 @@ use refimpl::ntlm::{self, Account, Challenge};
 use serde::{Deserialize, Serialize};
 
 pub const LEVEL: &str = "exploration";
-pub const RULE: &str = "case = (domain, user, password or NT hash; CHALLENGE with an 8-byte server challenge, target name, a random subset and order of AV pairs 1..10 always containing MsvAvTimestamp, flags = mandatory set plus a random subset of VERSION / UNICODE / 56 / REQUEST_TARGET / TARGET_TYPE_*, payload order and padding variants). Oracle = independent MS-NLMP server verification given only the three messages and the account's NT hash: all offset/length pairs inside the token and non-overlapping, user/domain decode to the account, NTProofStr verifies, client-challenge blob well formed with the server's timestamp and AV pairs, LM response Z(24) or valid LMv2, RC4-wrapped session key unwraps, MIC verifies over the three messages; then a message sealed by build_security_interface() unseals under keys derived from the unwrapped session key. hash-login and password-login verify against the same account. matrix enumerates every subset of the five optional flags x every subset of the nine optional AV pairs x both payload orders, and every (user length, domain length) and (user length, password length) pair in 0..=40. Non-trivial = non-empty credentials and >= 2 AV pairs; distinct by hash of the case.";
+pub const RULE: &str = "case = (domain, user, password or NT hash; CHALLENGE with an 8-byte server challenge, target name, a random subset and order of AV pairs 1..10 always containing MsvAvTimestamp, flags = mandatory set plus a random subset of VERSION / UNICODE / 56 / REQUEST_TARGET / TARGET_TYPE_*, payload order and padding variants). Oracle = independent MS-NLMP server verification given only the three messages and the account's NT hash: all offset/length pairs inside the token and non-overlapping, user/domain decode to the account, NTProofStr verifies, client-challenge blob well formed with the server's timestamp and AV pairs, LM response Z(24) or valid LMv2, RC4-wrapped session key unwraps, MIC verifies over the three messages; then a message sealed by build_security_interface() unseals under keys derived from the unwrapped session key. hash-login and password-login verify against the same account. edge-code-points puts each code point at the edges of the UTF-8 / UTF-16 forms (U+7F/80, U+7FF/800, U+D7FF/E000, U+FFFF/10000/10001, U+10FFFF ...) into each identity field at each position; one case in six lets the same context answer one or two earlier CHALLENGEs first (re-authentication) and verifies the last handshake; matrix enumerates every subset of the five optional flags x every subset of the nine optional AV pairs x both payload orders, and every (user length, domain length) and (user length, password length) pair in 0..=40. Non-trivial = non-empty credentials and >= 2 AV pairs; distinct by hash of the case.";
 
 #[derive(Serialize, Deserialize, Hash, Clone, Debug)]
 pub struct Case {
@@ -18,6 +18,9 @@ pub struct Case {
     pub from_hash: bool,
     pub challenge: Challenge,
     pub message: Vec<u8>,
+    /// CHALLENGE messages the same context has already answered before the one that is verified (re-authentication on one context)
+    #[serde(default)]
+    pub earlier: Vec<Challenge>,
 }
 
 pub fn run(c: &Case) -> Outcome {
@@ -52,6 +55,24 @@ pub fn run(c: &Case) -> Outcome {
     if let Err(e) = ntlm::parse_negotiate(&nego) {
         out.fail("ntlm:negotiate-malformed", format!("{} ({})", e.0, hexs(&nego)));
         return out;
+    }
+    for (i, e) in c.earlier.iter().enumerate() {
+        let eb = ntlm::build_challenge(e);
+        let (r, _) = call(|| n.read_challenge_message(&eb.bytes));
+        match r {
+            Res::Ok(_) => {}
+            Res::Err(err) => {
+                out.fail("ntlm:challenge-rejected", format!("conforming earlier CHALLENGE #{} rejected: {}; {:?}", i, err, e));
+                return out;
+            }
+            Res::Panic(p) => {
+                fail_panic(&mut out, "read_challenge_message", &p);
+                return out;
+            }
+        }
+    }
+    if !c.earlier.is_empty() {
+        out.label("re-authentication");
     }
     let (r, _) = call(|| n.read_challenge_message(&chal.bytes));
     let auth = match r {
@@ -102,10 +123,17 @@ pub fn gen_name(s: &mut Src, max: usize) -> String {
         0 => 0,
         _ => 1 + s.below(max),
     };
-    let class = s.below(6);
+    let class = s.below(7);
     let mut out = String::new();
     for _ in 0..n {
         let c = match if class == 5 { s.below(5) } else { class } {
+            6 => {
+                if s.bool() {
+                    s.pick(&crate::mem::EDGE_CHARS)
+                } else {
+                    (0x21 + s.below(0x5E) as u8) as char
+                }
+            }
             0 | 1 => (0x21 + s.below(0x5E) as u8) as char,
             2 => {
                 // Latin-1 letters except µ, ß, ÿ and the multiplication / division signs
@@ -177,7 +205,15 @@ pub fn decode(s: &mut Src) -> Case {
     let ascii = domain.is_ascii() && user.is_ascii();
     let challenge = gen_challenge(s, !ascii);
     let ml = s.below(64);
-    Case { domain, user, password, from_hash: s.chance(100), challenge, message: s.fill(ml) }
+    let from_hash = s.chance(100);
+    let message = s.fill(ml);
+    let earlier = if s.chance(40) {
+        let k = 1 + s.below(2);
+        (0..k).map(|_| if s.bool() { challenge.clone() } else { gen_challenge(s, !ascii || challenge.flags & ntlm::NEG_UNICODE != 0) }).collect()
+    } else {
+        Vec::new()
+    };
+    Case { domain, user, password, from_hash, challenge, message, earlier }
 }
 
 /// every subset of the optional flags x every subset of the optional AV pairs x both payload orders, and
@@ -195,6 +231,7 @@ fn matrix(part: usize, parts: usize) -> impl Iterator<Item = Case> {
             from_hash: i % 3 == 0,
             challenge: Challenge { flags: ntlm::MANDATORY | ntlm::NEG_UNICODE, server_challenge: vec![1, 2, 3, 4, 5, 6, 7, 8], target_name: refimpl::crypto::utf16le("SRV"), target_info: Vec::new(), version: vec![6, 1, 0xB1, 0x1D, 0, 0, 0, 15], payload_order: 0, gap: 0, max_len_delta: 0 },
             message: vec![0x42; 9],
+            earlier: Vec::new(),
         };
         if i < n_flag_av {
             let fm = i % 32;
@@ -234,8 +271,31 @@ pub fn check(rep: &Report) {
     rep.assume("without NTLMSSP_NEGOTIATE_UNICODE only ASCII identities are generated (OEM code page undefined)");
     rep.assume("the trailing Z(4) of the NTLMv2 client challenge is optional");
     rep.enumerate("matrix", true, matrix, run);
+    // every edge code point of the encoding forms, in each identity field and at each position of a short string
+    let mut edges = Vec::new();
+    for ch in crate::mem::EDGE_CHARS {
+        for field in 0..3 {
+            for pos in 0..3 {
+                for from_hash in [false, true] {
+                    let mut c = matrix(0, 1).next().unwrap();
+                    c.from_hash = from_hash;
+                    let mut base: Vec<char> = "ab".chars().collect();
+                    base.insert(pos, ch);
+                    let v: String = base.into_iter().collect();
+                    match field {
+                        0 => c.password = v,
+                        1 => c.user = v,
+                        _ => c.domain = v,
+                    }
+                    edges.push(c);
+                }
+            }
+        }
+    }
+    rep.list("edge-code-points", edges, run);
     rep.random("tokens", rep.tier.n(300_000, 6_000_000), 200, decode, run);
     rep.require("tokens", "from-hash", 2000);
     rep.require("tokens", "version-flag", 2000);
     rep.require("tokens", "non-ascii", 2000);
+    rep.require("tokens", "re-authentication", 2000);
 }
